@@ -49,7 +49,6 @@ PlanFails(M, B, ord, perm) == PL(K, N)!PlanFails(M, B, ord, perm)
 Best(V2, M) == PL(K, N)!Best(V2, M)
 Servers == ToSet(C.servers)
 Perm == ToSet(C.perm)
-ShStr == {ToString(i) : i \in Shnums}
 ShNum(str) == CHOOSE i \in Shnums : ToString(i) = str
 \* version table for MaxSeq / Best: rh only breaks ties
 V == [i \in 1..Len(C.vers) |-> [seq |-> C.vers[i].seq, rh |-> C.vers[i].rh, content |-> i, signer |-> "owner"]]
@@ -59,7 +58,6 @@ Row(o) == [sh \in Shnums |-> IF ToString(sh) \in DOMAIN o THEN o[ToString(sh)] E
 Grid(o) == [s \in Servers |-> IF s \in DOMAIN o THEN Row(o[s]) ELSE [sh \in Shnums |-> 0]]
 Reads(o) == [sh \in {ShNum(x) : x \in DOMAIN o} |-> o[ToString(sh)]]
 BadSet(seq) == {[s |-> seq[i].s, sh |-> ShNum(seq[i].sh), c |-> seq[i].cs] : i \in 1..Len(seq)}
-VerOf(c) == IF Genuine(c) THEN c ELSE 0
 
 NoMap == [M |-> [s \in ToSet(Traces[tid].consts.servers) |-> [sh \in Shnums |-> 0]], Bad |-> {}, reach |-> {}, have |-> FALSE]
 NoP == [goal |-> {}, newc |-> 0, pend |-> {}, live |-> {}, acked |-> {}, sfor |-> {}, cands |-> {}]
@@ -69,11 +67,11 @@ NoP == [goal |-> {}, newc |-> 0, pend |-> {}, live |-> {}, acked |-> {}, sfor |-
    faults    requests of the current attempt that ended in a connection error
    unperm    the publisher wrote (in place) to a server without upload permission
    stored    slots that held the new version at some moment (current attempt)
-   prevUCWE  the previous attempt of a modify ended with evidence of another write
+   othergoal slots of an in-place update that held another version than the updated one
    res       result of the operation ("" = not finished)
    lastold   version whose contents the modifier was last given; oldmiss: it was not the best version of the map *)
 G0 == [sent |-> FALSE, att |-> 0, failed |-> FALSE, foreign |-> FALSE, faults |-> 0, unperm |-> FALSE, stored |-> {},
-       prevUCWE |-> FALSE, res |-> "", newseq |-> 0, othergoal |-> {}, lastold |-> {}, oldmiss |-> FALSE]
+       res |-> "", newseq |-> 0, othergoal |-> {}, lastold |-> {}, oldmiss |-> FALSE]
 
 Vd(c, L2, m2, P2, g2) == [c |-> c, L |-> L2, mp |-> m2, P |-> P2, gh |-> g2]
 Rej(c) == Vd(c, L, mp, P, gh)
@@ -101,7 +99,7 @@ VSend(e) ==
       want == PublishGoalOf(M, B, C.servers, Perm)
       newseq == IF e.newc \in 1..Len(C.vers) THEN C.vers[e.newc].seq ELSE 0
       g2 == [gh EXCEPT !.sent = TRUE, !.att = @ + 1, !.failed = FALSE, !.foreign = FALSE, !.faults = 0, !.stored = {},
-                       !.prevUCWE = gh.failed \/ gh.foreign, !.newseq = newseq,
+                       !.newseq = newseq,
                        !.unperm = @ \/ \E p \in goal : p[1] \notin Perm,
                        !.othergoal = IF isupd THEN {p \in goal : M[p[1]][p[2]] # C.base} ELSE {},
                        \* modify: "old = retrieve_best_version()" - judged at the end of the trace
@@ -169,7 +167,6 @@ GridRecoverable == \E c \in 1..Len(C.vers) : Cardinality({sh \in Shnums : \E s \
 VFinish(e) ==
   LET published == gh.sent /\ P.goal # {}
       nack == Cardinality({p[2] : p \in P.acked})
-      evidence == gh.failed \/ gh.foreign
       g2 == [gh EXCEPT !.res = e.res]
   IN IF gh.res # "" THEN Rej("conf_finish_twice")
      ELSE IF e.res = "hang" THEN Rej("X_operation_never_finishes")
@@ -219,12 +216,14 @@ VAfter(e) ==
      ELSE IF ok /\ Cardinality({p[2] : p \in holdsNew}) < K THEN Rej("X_success_but_not_recoverable")
      ELSE IF ok /\ gh.faults = 0 /\ C.op # "update" /\ {p[2] : p \in holdsNew} # Shnums THEN Rej("X_success_without_all_shares")
      ELSE IF ok /\ gh.faults = 0 /\ holdsNew # P.goal THEN Rej("X_success_without_whole_goal")
-     \* ---- known disagreements between documents and code, judged last
+     \* ---- whatever carries the new version's checkstring is a valid share of it (a share of another version that an in-place
+     \*      update rewrote: known disagreement); then: an independent reader that sees every server gets the new contents
      ELSE IF invalid # {} /\ ~(invalid \subseteq gh.othergoal) THEN Rej("X_written_share_invalid")
      ELSE IF invalid # {} THEN Rej("X_update_corrupts_share_of_other_version")
      ELSE IF ok /\ newv \notin ToSet(e.dl) /\ newest /\ C.op = "update" /\ gh.att >= 2 THEN Rej("X_update_retry_publishes_other_contents")
      \* (a version of the same or a higher seqnum that the survey could not see may still win: "server unavailability counts against us")
      ELSE IF ok /\ newv \notin ToSet(e.dl) /\ newest THEN Rej("X_reader_does_not_get_the_new_version")
+     \* ---- known disagreements between documents and code, judged last
      ELSE IF Retrying /\ gh.res \in {"NotEnoughShares", "Unrecoverable"} /\ GridRecoverable
        THEN Rej("X_modify_gives_up_on_recoverable_file")
      ELSE IF gh.oldmiss THEN Rej("X_modify_retry_reads_old_version")
